@@ -730,6 +730,16 @@ pub trait Probe: Flat + DeepRead {
     fn dflt(bytes: &mut [u8]) -> Option<Result<(), Error>>;
     /// `FlatWrap::<Self, &mut [u8]>::default_in_place(bytes)` when the type has a default.
     fn wrap_dflt(bytes: &mut [u8]) -> Option<Result<(), Error>>;
+    /// `UninitSendGuard::default_in_place` (blocking / async) when the type has a default; `Err(g)` hands the
+    /// guard back when it has none.
+    #[allow(clippy::type_complexity)]
+    fn send_dflt_b<'a, B: flatty_io::blocking::WriteBuffer + 'a>(
+        g: flatty_io::blocking::UninitSendGuard<'a, Self, B>,
+    ) -> Result<Result<flatty_io::blocking::SendGuard<'a, Self, B>, Error>, flatty_io::blocking::UninitSendGuard<'a, Self, B>>;
+    #[allow(clippy::type_complexity)]
+    fn send_dflt_a<'a, B: flatty_io::async_::AsyncWriteBuffer + 'a>(
+        g: flatty_io::async_::UninitSendGuard<'a, Self, B>,
+    ) -> Result<Result<flatty_io::async_::SendGuard<'a, Self, B>, Error>, flatty_io::async_::UninitSendGuard<'a, Self, B>>;
 }
 
 pub trait Ops {
@@ -907,14 +917,31 @@ where
     for<'b> Dyn<'b>: Emplacer<T>,
 {
     fn layout(&self) -> String {
+        // AlignedBytes (the allocation behind the IO buffers and the usual owner of a mapped value): the
+        // requested length, the requested alignment, contents copied by from_slice
+        let abytes = guarded(|| {
+            for n in [0usize, 1, T::MIN_SIZE, T::MIN_SIZE + 1, 3 * T::MIN_SIZE + 7] {
+                let a = ::flatty::AlignedBytes::new(n, T::ALIGN);
+                if a.len() != n || (a.as_ptr() as usize) % T::ALIGN != 0 || a.layout().size() != n || a.layout().align() != T::ALIGN {
+                    return format!("BAD-NEW:{}", n);
+                }
+                let src: Vec<u8> = (0..n).map(|i| (i * 7 + 3) as u8).collect();
+                let mut b = ::flatty::AlignedBytes::from_slice(&src, T::ALIGN);
+                if &b[..] != &src[..] || (b.as_ptr() as usize) % T::ALIGN != 0 || b.as_mut().len() != n {
+                    return format!("BAD-FROM-SLICE:{}", n);
+                }
+            }
+            "ok".into()
+        });
         format!(
-            "align={} min={} size={}",
+            "align={} min={} size={} abytes={}",
             T::ALIGN,
             T::MIN_SIZE,
             match T::STATIC_SIZE {
                 Some(s) => s.to_string(),
                 None => "-".into(),
-            }
+            },
+            abytes
         )
     }
     fn validate(&self, off: usize, bytes: &[u8]) -> String {
